@@ -223,12 +223,16 @@ def no_process_survives_an_abort(chk):
             for s_ in (signal.SIGINT, signal.SIGTERM):
                 signal.signal(s_, signal.SIG_DFL)
 
+        # Conductor's output goes to FILES: a surviving task process would keep a pipe open and the harness would wait for it
+        fo, fe = open(os.path.join(os.path.dirname(root), "cond.out"), "wb"), open(os.path.join(os.path.dirname(root), "cond.err"), "wb")
         if nth is None:
-            p = subprocess.Popen([PY, "-m", "conductor"] + argv, cwd=root, env=env, stdout=subprocess.PIPE, stderr=subprocess.PIPE, preexec_fn=dispositions)
+            p = subprocess.Popen([PY, "-m", "conductor"] + argv, cwd=root, env=env, stdout=fo, stderr=fe, preexec_fn=dispositions)
         else:
             drv = os.path.join(os.path.dirname(root), "driver.py")
             open(drv, "w").write(driver)
-            p = subprocess.Popen([PY, drv, str(nth), str(int(sig))] + argv, cwd=root, env=env, stdout=subprocess.PIPE, stderr=subprocess.PIPE, preexec_fn=dispositions)
+            p = subprocess.Popen([PY, drv, str(nth), str(int(sig))] + argv, cwd=root, env=env, stdout=fo, stderr=fe, preexec_fn=dispositions)
+        fo.close()
+        fe.close()
 
         def pids():
             out = {}
@@ -248,12 +252,14 @@ def no_process_survives_an_abort(chk):
                 time.sleep(0.05)
             time.sleep(0.2)
             p.send_signal(sig)
+        late = b""
         try:
-            out, err = p.communicate(timeout=30)
+            p.wait(timeout=30)
         except subprocess.TimeoutExpired:
             p.kill()
-            out, err = p.communicate()
-            err += b"(cond did not end within 30 s)"
+            p.wait()
+            late = b"(cond did not end within 30 s)"
+        out, err = open(os.path.join(os.path.dirname(root), "cond.out"), "rb").read(), open(os.path.join(os.path.dirname(root), "cond.err"), "rb").read() + late
         time.sleep(0.4)
         found = pids()
         alive = {k: v for k, v in found.items() if _alive(v)}
